@@ -157,11 +157,12 @@ pub fn is_valid_user_token(token: &String, user_name: &String, db: &Database) ->
     crate::verif::yield_point("is_valid_user_token:map:read");
     let db = db.map.read().unwrap();
     match db.get(&format!("$$user_{}", user_name)) {
-        Some(value) => {
+        // A removed user that was already on disk stays in the map as a tombstone: it is no user any more
+        Some(value) if value.state != ValueStatus::Deleted => {
             log::debug!("[is_valid_token] Token {} value {}", value, token);
             value == token
         }
-        None => false,
+        _ => false,
     }
 }
 
